@@ -334,6 +334,10 @@ def run(ctx) -> str:
     ctx.guarded("P5", lambda: rule_p5(ctx))
     ctx.guarded("P6P7", lambda: rule_p6_p7(ctx))
     ctx.guarded("P9", lambda: ctx.inventory.__setitem__("memo_sites", check_memo_keys(ctx, "P9-memo-key", [SOLVER])))
+    from ..memo import check_cached_returns
+    from ..callgraph import SRC_ISLA
+
+    ctx.guarded("P10", lambda: check_cached_returns(ctx, "P10-cached-mutable", SRC_ISLA, SRC_ISLA))
     ctx.assume("DerivationTree.is_open/is_complete and Formula.__eq__ are correct; asserts are enabled developer contracts")
     ctx.assume("each elimination step is meaning-preserving (NOT decided here)")
     return EXPLANATION
